@@ -26,6 +26,7 @@ type E1Spec struct {
 	HInit       string
 	HFlags      int
 	AbsentIndex bool
+	NoWalk      bool
 	Foreign     *ForeignSpec
 	TornBytes   int
 }
@@ -49,7 +50,7 @@ func ExploreE1(p *pool.Pool, spec E1Spec, rep *Report, deadline time.Time) E1Sta
 	// initial state
 	frontier := [][]ops.Op{}
 	{
-		job := &E1Job{Cfg: spec.Cfg, Setup: spec.Setup, Hist: nil, Oracles: spec.Oracles, AllJ: spec.AllJ, Level: spec.Level, HInit: spec.HInit, HFlags: spec.HFlags, AbsentIndex: spec.AbsentIndex, Foreign: spec.Foreign, TornBytes: spec.TornBytes}
+		job := &E1Job{Cfg: spec.Cfg, Setup: spec.Setup, Hist: nil, Oracles: spec.Oracles, AllJ: spec.AllJ, Level: spec.Level, HInit: spec.HInit, HFlags: spec.HFlags, AbsentIndex: spec.AbsentIndex, Foreign: spec.Foreign, TornBytes: spec.TornBytes, NoWalk: spec.NoWalk}
 		p.Map("e1", []interface{}{job}, func(i int, resp *pool.Response) {
 			st.Transitions++
 			if resp.Err != "" {
@@ -84,7 +85,7 @@ func ExploreE1(p *pool.Pool, spec E1Spec, rep *Report, deadline time.Time) E1Sta
 		for _, h := range frontier {
 			for _, op := range spec.Alphabet {
 				hist := append(append([]ops.Op{}, h...), op)
-				jobs = append(jobs, &E1Job{Cfg: spec.Cfg, Setup: spec.Setup, Hist: hist, Oracles: spec.Oracles, AllJ: spec.AllJ, Level: spec.Level, HInit: spec.HInit, HFlags: spec.HFlags, AbsentIndex: spec.AbsentIndex, Foreign: spec.Foreign, TornBytes: spec.TornBytes})
+				jobs = append(jobs, &E1Job{Cfg: spec.Cfg, Setup: spec.Setup, Hist: hist, Oracles: spec.Oracles, AllJ: spec.AllJ, Level: spec.Level, HInit: spec.HInit, HFlags: spec.HFlags, AbsentIndex: spec.AbsentIndex, Foreign: spec.Foreign, TornBytes: spec.TornBytes, NoWalk: spec.NoWalk})
 			}
 		}
 		next := [][]ops.Op{}
